@@ -279,6 +279,7 @@ let run () =
                 | "orders" -> o := { !o with o_orders = (if v = "" then [] else List.map (fun g -> if g = "" then [] else List.map (fun x -> cs (unesc x)) (String.split_on_char ',' g)) (String.split_on_char '|' v)) }
                 | "fresh" -> o := { !o with o_fresh = (if v = "" then [] else List.map cs (String.split_on_char ',' v)) }
                 | "fault" -> (match String.split_on_char ':' v with [n; e] -> o := { !o with o_fault = Some (nat_of_int (int_of_string n), errno_of_name e) } | _ -> ())
+                | "start" -> world := { !world with w_fs = tick !world.w_fs (z_of_string v) }
                 | "gran" -> o := { !o with o_gran = z_of_string v }
                 | "atime" -> o := { !o with o_atime = (match v with "noatime" -> Noatime | "strict" -> Strict | _ -> Relatime) }
                 | _ -> ())
@@ -290,11 +291,6 @@ let run () =
            let kind = f.(2) in
            let o = match !cur_oracle with Some o -> o | None -> base_oracle () in
            cur_oracle := None;
-           (* the kernel's clock at the start of this operation: just before the
-              first clock reading the operation made (if any) *)
-           (match o.o_times with
-            | t :: _ -> world := { !world with w_fs = tick !world.w_fs (Z.add t (z_of_int (-1000000))) }
-            | [] -> ());
            Printf.printf "# step %d begin %s\n" !step kind;
            let fds_before = count_fds () in
            let key i = { k_name = cs (unesc f.(i)); k_hash = n_of_string f.(i + 1); k_sec = n_of_string f.(i + 2) } in
